@@ -372,6 +372,12 @@ def run_case(r, obs):
 
             def __iter__(self):
                 return iter(self.xs)
+
+        class CallableIter(IterOnly):
+            def __call__(self, *args):
+                return ["called"]
+        import enum
+        Colour = enum.Enum("Colour", "red green")
         makers = {
             "dict": lambda: {"a": 1, "b": 2}, "dict-items": lambda: {"a": 1}.items(),
             "frozenset": lambda: frozenset([5]), "deque": lambda: _coll.deque([1, 2]),
@@ -379,6 +385,9 @@ def run_case(r, obs):
             "iter-only": lambda: IterOnly([1, 2]), "getitem-only": lambda: GetItemOnly([3, 4, 5]),
             "ctypes-array": lambda: (ctypes.c_int * 3)(1, 2, 3), "bytes": lambda: b"ab",
             "list": lambda: [0], "empty-getitem-only": lambda: GetItemOnly([]),
+            # iterables that can also be called (a data set object, an Enum class)
+            "iterable-and-callable": lambda: CallableIter([6, 7]),
+            "enum-class": lambda: Colour,
         }
         names = sorted(makers)
         for m in (1, 2):
@@ -530,3 +539,4 @@ RULE += (' Added: Chain results abandoned half-way (closed / dropped): the input
          'with itertools.chain; Slice.fill_into into an element whose fill raises StopIteration.')
 RULE += (' Added: invalid steps that are Fractions, Decimals, infinities and nan, with negative '
          'and non-negative indices.')
+RULE += (' Added: Chain arguments that are iterable and also callable (an object, an Enum class).')
